@@ -318,10 +318,10 @@ def finish(case):
             rbytes += dup * 3 * sends * _answer_size(ws[1] if len(ws) > 1 else "")
         elif ws and ws[0] == "raw":
             rbytes += len(ws[2]) // 2 if len(ws) > 2 else 0
-        if op == "run @":
+        if op in ("run @", "runw @"):
             # every outstanding query may be (re)transmitted on up to 3 connections
             need = 30 + 3 * _calls(wpat, 3 * 40 * sends) + 2 * _calls(chunk, rbytes + 4)
-            out.append("run %d" % min(need, 20000))
+            out.append("%s %d" % (op.split()[0], min(need, 20000)))
             rbytes = 0      # everything queued has been read when the loop went idle
         else:
             out.append(op)
@@ -340,6 +340,9 @@ def gen_c20(rng, tier, n):
             c = gen_mixed(rng, tier)
         else:
             c = gen_junk(rng, tier)
+        if rng.random() < 0.35:
+            # event loop that reports writability only while the library asks for it
+            c = c.replace("run @", "runw @")
         out.append(finish(c))
     return out
 
@@ -465,4 +468,10 @@ def gen_c10_one(rng, tier):
 
 
 def gen_c10(rng, tier, n):
-    return [gen_c10_one(rng, tier) for _ in range(n)]
+    out = []
+    for _ in range(n):
+        c = gen_c10_one(rng, tier)
+        if rng.random() < 0.3:
+            c = c.replace("run 300", "runw 300")
+        out.append(c)
+    return out
